@@ -93,9 +93,9 @@ type interpreter struct {
 	// symbolic execution state
 	cfg         Config
 	stats       Stats
-	ps          *pathState            // current path
-	trail       []undoRec             // undo log of heap mutations on this path
-	inInit      int                   // >0 while running a package initializer
+	ps          *pathState // current path
+	trail       []undoRec  // undo log of heap mutations on this path
+	inInit      int        // >0 while running a package initializer
 	initRunning *ssa.Package
 	inited      map[*ssa.Package]bool // lazily initialised packages
 	initFailed  map[string]string     // package path -> reason
@@ -716,4 +716,3 @@ func doRecover(caller *frame) value {
 	}
 	return iface{}
 }
-
